@@ -50,10 +50,10 @@ func c13Schemas(thorough bool) []c13schema {
 		return o
 	}
 	// components containing the internal separator '.', characters sorting just before and after it,
-	// case and whitespace variants, a non-ASCII character
-	strs := ss("a", "b", "a.b", "b.c", "a.", ".", ".b", "a.b.c", "A", "a ", "a-b", "a/b")
+	// case and whitespace variants, a non-ASCII character, text that a formatting routine would interpret (%s, %v, %.)
+	strs := ss("a", "b", "a.b", "b.c", "a.", ".", ".b", "a.b.c", "A", "a ", "a-b", "a/b", "%.", "%s", "%v", "50%")
 	if thorough {
-		strs = append(strs, ss("c", "a..b", "..", "b.", "a.b.", ".a", " a", "a-", "a/", "é", "a\tb", "0", "00")...)
+		strs = append(strs, ss("c", "a..b", "..", "b.", "a.b.", ".a", " a", "a-", "a/", "é", "a\tb", "0", "00", "%%", "%.%", "50% ", "\\", "\"", "{}", "[1 2]")...)
 	}
 	out := []c13schema{
 		{"HR(S,S)", drv.TableCfg{Hash: "h", HashT: "S", Range: "r", RangeT: "S", Billing: "PAY_PER_REQUEST"}, strs, strs},
